@@ -6,8 +6,9 @@ R runs (newest first) + one compacted segment. Each run carries up to one tombst
 relationship of the traversed node; the segment carries one relationship. All ids are symbolic 32-bit values. Hash sets are
 modelled as finite lists of symbolic elements (membership = disjunction of equalities).
 
-Same-run hiding (a relationship and the tombstone of its end node inside one run) is not demanded here: the property statement
-requires it only through the delete-safety obligation O1."""
+A relationship whose far end node is tombstoned by the SAME run (created and deleted by one transaction, e.g.
+`CREATE (a)-[:R]->(b) WITH b DETACH DELETE b`) is dangling as well and must not be returned. A relationship tombstone in the same
+run does not hide the run's own relationship (delete + re-create of the same relationship in one transaction keeps it)."""
 import itertools
 import re
 
@@ -107,6 +108,177 @@ def edge(name, fixed_src=None, fixed_dst=None):
                               2: fixed_dst if fixed_dst is not None else z3.BitVec(name + "_dst", 32)})
 
 
+def drive(mf, fn, models, ty, st, total, nruns, failed):
+    """Call the real `next` on the iterator in st.env["$it"] until it returns None; -> ([(state, yielded edges, executor)], queries, time, inlined)."""
+    queries, stime, inlined = 0, 0.0, set()
+    states = [(st, [])]
+    finished = []
+    for step in range(total + 1):
+        nxt = []
+        for s, got in states:
+            ex = Exec(fn, models, bound=2 * (nruns + 3) + 4, mf=mf, inline=r".", max_paths=4000)
+            s2 = s.fork()
+            for k in [k for k in s2.env if re.match(r"^_\d+(@\d+)?$", k)]:
+                del s2.env[k]
+            s2.visits, s2.frames = {}, []
+            s2.env["_1"] = Ref("$it")
+            paths = ex.run("bb0", s2)
+            queries += ex.queries
+            stime += ex.solver_time
+            inlined |= ex.inlined
+            for p in paths:
+                if p.kind == "panic":
+                    failed.append("%s::next can panic: %s" % (ty, str(p.info)[:80]))
+                elif p.kind == "bound":
+                    raise Unsupported("%s::next cut by the loop bound" % ty)
+                elif p.kind == "return":
+                    if isinstance(p.ret, Enum) and p.ret.variant == "None":
+                        finished.append((p.st, got, ex))
+                    elif isinstance(p.ret, Enum) and p.ret.variant == "Some":
+                        if step == total:
+                            failed.append("%s yields more relationships than the snapshot holds" % ty)
+                        else:
+                            nxt.append((p.st, got + [p.ret.fields[0]]))
+                    else:
+                        raise Unsupported("unexpected return value %r" % (p.ret,))
+        states = nxt
+        if not states:
+            break
+    return finished, queries, stime, inlined
+
+
+def iter_struct(ty, runs, segs, node):
+    return Struct(ty, {0: PyVec(runs), 1: PyVec(segs), 2: node, 3: Enum("None"), 4: bv(0, 64), 5: bv(0, 64), 6: PyVec(),
+                       7: bv(0, 64), 8: bv(0, 64), 9: PyVec(), 10: PyVec(), 11: PyVec(), 12: PyVec(), 13: PyVec(), 14: FALSE})
+
+
+class ListIt:
+    def __init__(self, items, pos=0):
+        self.items, self.pos = items, pos
+
+
+def compaction_models():
+    def m_set_new(ex, st, a, dst, callee):
+        return [(PyVec(), [], None)]
+
+    def m_iter_edges(ex, st, a, dst, callee):
+        return [(ListIt(list(deref_val(ex, st, a[0]).fields[2].items)), [], None)]
+
+    def m_identity(ex, st, a, dst, callee):
+        return [(a[0], [], None)]
+
+    def m_list_next(ex, st, a, dst, callee):
+        it = deref_val(ex, st, a[0]) if isinstance(a[0], Ref) else a[0]
+        if not isinstance(it, ListIt):
+            return None
+        if it.pos >= len(it.items):
+            return [(Enum("None"), [], None)]
+        return [(("ADV", a[0], ListIt(it.items, it.pos + 1), Enum("Some", [it.items[it.pos]])), [], None)]
+
+    def m_runs_iter(ex, st, a, dst, callee):
+        v = deref_val(ex, st, a[0])
+        if not isinstance(v, PyVec):
+            return None
+        return [(ListIt([Ref(a[0].root, list(a[0].projs) + [("elem", i)]) for i in range(len(v.items))]), [], None)]
+
+    return [(r"^HashSet::<.*>::new$", m_set_new), (r"^L0Run::iter_edges$", m_iter_edges),
+            (r"^<FlatMap<.*> as IntoIterator>::into_iter$|^<std::slice::Iter<'_, Arc<L0Run>> as IntoIterator>::into_iter$", m_identity),
+            (r"^<FlatMap<.*> as Iterator>::next$|^<std::slice::Iter<'_, Arc<L0Run>> as Iterator>::next$", m_list_next),
+            (r"slice::<impl \[Arc<L0Run>\]>::iter$", m_runs_iter)]
+
+
+def run_compaction_vs_reads(nruns, shapes):
+    """C05-O2: the relationships build_segment_from_runs keeps (the real filter loop, up to its `sort` call) are exactly the
+    relationships the merged read path (the real NeighborsIter) returns for the same runs."""
+    def go(mf, tier):
+        from ..vecmodel import m_index_usize
+        base = [(p, f if f is not None else m_index_usize) for p, f in set_models()] + VEC_MODELS + STD_CMP_MODELS + GENERIC_MODELS
+        itfn = mf.find(r"read_path_iters\.rs:[^>]*>::next\(_1: &mut NeighborsIter\)")
+        bfn = mf.find(r"^fn build_segment_from_runs\(")
+        stop = [lbl for lbl, stmts in bfn.blocks.items() if "slice::<impl [nervusdb_api::EdgeKey]>::sort(" in stmts[-1]]
+        if len(stop) != 1:
+            raise Unsupported("cannot locate the end of the filter loop of build_segment_from_runs")
+        # the block AFTER the sort call is where we stop: take the sort's return target
+        m = re.search(r"-> \[return: (bb\d+)", bfn.blocks[stop[0]][-1])
+        edges_local = bfn.debug.get("edges")
+        if not m or not edges_local:
+            raise Unsupported("build_segment_from_runs: no `edges` local / sort target")
+        node = z3.BitVec("node", 32)
+        failed, ncases, queries, stime = [], 0, 0, 0.0
+        for shape in shapes:
+            st = State()
+            runs, edges = [], []
+            for k in range(nruns):
+                tn = [z3.BitVec("run%d_tombstoned_node" % k, 32)] if shape[k][0] else []
+                te = [edge("run%d_tombstoned_edge" % k)] if shape[k][1] else []
+                e = [edge("run%d_edge" % k, fixed_src=node)] if shape[k][2] else []
+                runs.append(Struct("L0RunModel", {0: PyVec(tn), 1: PyVec(te), 2: PyVec(e)}))
+                edges.append(e)
+            # reads
+            s_it = st.fork()
+            s_it.env["$it"] = iter_struct("NeighborsIter", runs, [], node)
+            finished, q, t_, _ = drive(mf, itfn, base, "NeighborsIter", s_it, sum(len(e) for e in edges) + 1, nruns, failed)
+            queries += q
+            stime += t_
+            # compaction
+            s_b = st.fork()
+            s_b.env["$runs"] = PyVec(runs)
+            s_b.env["_1"] = Struct("SegmentId", {0: bv(7, 64)})
+            s_b.env["_2"] = Ref("$runs")
+
+            def m_sort(ex, st2, a, dst, callee):
+                return [(Tup([]), [], None)]
+            exb = Exec(bfn, compaction_models() + [(r"slice::<impl \[nervusdb_api::EdgeKey\]>::sort$", m_sort)] + base, bound=2 * nruns + 6, mf=mf,
+                       inline=r"^$", stop_at={m.group(1): "after-filter"}, max_paths=4000)
+            bpaths = exb.run("bb0", s_b)
+            queries += exb.queries
+            stime += exb.solver_time
+            kept_paths = []
+            for p in bpaths:
+                if p.kind == "panic":
+                    failed.append("build_segment_from_runs can panic: %s" % str(p.info)[:80])
+                elif p.kind == "bound":
+                    raise Unsupported("build_segment_from_runs cut by the loop bound")
+                elif p.kind == "stop":
+                    kept = p.st.env.get(edges_local)
+                    if not isinstance(kept, PyVec):
+                        raise Unsupported("`edges` is not a vector at the end of the filter loop")
+                    kept_paths.append((p.st.pc, kept.items))
+            if not kept_paths:
+                raise Unsupported("no path of build_segment_from_runs reaches the end of its filter loop")
+            for s, got, ex in finished:
+                for bpc, kept in kept_paths:
+                    pc = list(s.pc) + [c for c in bpc if all(c is not d for d in s.pc)]
+                    if not ex.feasible(pc):
+                        continue
+                    ncases += 1
+                    for k in range(nruns):
+                        for e in edges[k]:
+                            in_reads = any(str(g.fields[1]) == str(e.fields[1]) for g in got)
+                            in_seg = any(str(g.fields[1]) == str(e.fields[1]) for g in kept)
+                            if in_reads != in_seg:
+                                mdl = ex.model(pc)
+                                failed.append("compaction %s a relationship of run %d that reads %s before compaction (runs shaped %s), e.g. node=%s"
+                                              % ("drops" if in_reads else "keeps", k, "return" if in_reads else "hide", shape,
+                                                 mdl.eval(node, model_completion=True)))
+        res = {"paths": ncases, "queries": queries, "solver_time_s": round(stime, 3),
+               "sample": ["%d runs, shapes (tombstoned node, tombstoned edge, relationship) per run: %s" % (nruns, list(shapes)[:6])],
+               "functions": ["engine::build_segment_from_runs (filter loop), read_path_iters::NeighborsIter::next + helpers"]}
+        if failed:
+            from .. import witness as W
+            reproduced, wit = None, []
+            rep, lines = W.run(["compaction-visible"])
+            wit.append("replay `compaction-visible`: %s" % " | ".join(l for l in lines if l.startswith("WITNESS"))[:400])
+            if rep:
+                reproduced = True
+            res.update({"status": "fail", "failed": sorted({re.sub(r" \(runs shaped .*$", "", f) for f in failed}), "reason": "; ".join(sorted(set(failed)))[:500],
+                        "witness_text": sorted(set(failed))[:4] + wit, "reproduced": reproduced})
+        else:
+            res["status"] = "pass"
+        return res
+    return go
+
+
 def run_iter(direction, nruns, shapes):
     """direction: 'out' (NeighborsIter, node = source) or 'in' (IncomingNeighborsIter, node = destination)."""
     def go(mf, tier):
@@ -129,43 +301,12 @@ def run_iter(direction, nruns, shapes):
                 tomb_nodes.append(tn), tomb_edges.append(te), edges.append(e)
             seg_e = edge("segment_edge", fixed_src=node) if direction == "out" else edge("segment_edge", fixed_dst=node)
             segs = [Struct("SegmentModel", {0: PyVec([seg_e])})]
-            st.env["$it"] = Struct(ty, {0: PyVec(runs), 1: PyVec(segs), 2: node, 3: Enum("None"), 4: bv(0, 64), 5: bv(0, 64), 6: PyVec(),
-                                        7: bv(0, 64), 8: bv(0, 64), 9: PyVec(), 10: PyVec(), 11: PyVec(), 12: PyVec(), 13: PyVec(), 14: FALSE})
-            # drive next() until None (at most #edges + 1 calls)
+            st.env["$it"] = iter_struct(ty, runs, segs, node)
             total = sum(len(e) for e in edges) + 1
-            states = [(st, [])]
-            finished = []
-            for step in range(total + 1):
-                nxt = []
-                for s, got in states:
-                    ex = Exec(fn, models, bound=2 * (nruns + 3) + 4, mf=mf, inline=r".", max_paths=4000)
-                    s2 = s.fork()
-                    for k in [k for k in s2.env if re.match(r"^_\d+(@\d+)?$", k)]:
-                        del s2.env[k]
-                    s2.visits, s2.frames = {}, []
-                    s2.env["_1"] = Ref("$it")
-                    paths = ex.run("bb0", s2)
-                    queries += ex.queries
-                    stime += ex.solver_time
-                    inlined |= ex.inlined
-                    for p in paths:
-                        if p.kind == "panic":
-                            failed.append("%s::next can panic: %s" % (ty, str(p.info)[:80]))
-                        elif p.kind == "bound":
-                            raise Unsupported("%s::next cut by the loop bound" % ty)
-                        elif p.kind == "return":
-                            if isinstance(p.ret, Enum) and p.ret.variant == "None":
-                                finished.append((p.st, got, ex))
-                            elif isinstance(p.ret, Enum) and p.ret.variant == "Some":
-                                if step == total:
-                                    failed.append("%s yields more relationships than the snapshot holds" % ty)
-                                else:
-                                    nxt.append((p.st, got + [p.ret.fields[0]]))
-                            else:
-                                raise Unsupported("unexpected return value %r" % (p.ret,))
-                states = nxt
-                if not states:
-                    break
+            finished, q, t_, inl = drive(mf, fn, models, ty, st, total, nruns, failed)
+            queries += q
+            stime += t_
+            inlined |= inl
             other = 2 if direction == "out" else 0      # field of the far end node
             for s, got, ex in finished:
                 ncases += 1
@@ -174,13 +315,14 @@ def run_iter(direction, nruns, shapes):
                 for age, e in cands:
                     newer_nodes = [t for k in range(min(age, nruns)) for t in tomb_nodes[k]]
                     newer_edges = [t for k in range(min(age, nruns)) for t in tomb_edges[k]]
-                    hidden = z3.Or([t == e.fields[other] for t in newer_nodes] + [t == node for t in newer_nodes] +
+                    same_nodes = tomb_nodes[age] if age < nruns else []
+                    hidden = z3.Or([t == e.fields[other] for t in newer_nodes + same_nodes] + [t == node for t in newer_nodes] +
                                    [val_eq(t, e) for t in newer_edges] + [z3.BoolVal(False)])
                     returned = any(g.fields[1] is e.fields[1] or str(g.fields[1]) == str(e.fields[1]) for g in got)
                     what = "the segment" if age == nruns else "run %d" % age
                     if returned and ex.feasible(s.pc, hidden):
                         m = ex.model(s.pc, hidden)
-                        failed.append("%s returns a relationship from %s although a newer run tombstones one of its end nodes or the relationship itself "
+                        failed.append("%s returns a relationship from %s although the same or a newer run tombstones one of its end nodes, or a newer run the relationship itself "
                                       "(runs shaped %s), e.g. %s" % (ty, what, shape, witness(m, node, tomb_nodes, e)))
                     # completeness: not hidden (also not by its own run's node tombstones, which the iterator may or may not apply) => returned
                     same_run_nodes = tomb_nodes[age] if age < nruns else []
@@ -218,6 +360,8 @@ QUICK_SHAPES = [(FULL, FULL), ((True, False, False), (False, False, True)), ((Fa
                 ((False, False, False), (False, False, True)), ((False, True, True), (False, False, True))]
 ALL_SHAPES = list(itertools.product(list(itertools.product((False, True), repeat=3)), repeat=2))
 TARGETS = [
+    {"name": "c05_o2_q_compaction_keeps_what_reads_return_2_runs", "crate": "nervusdb-storage", "run": run_compaction_vs_reads(2, QUICK_SHAPES)},
+    {"name": "c05_o2_t_compaction_keeps_what_reads_return_all_shapes", "crate": "nervusdb-storage", "run": run_compaction_vs_reads(2, ALL_SHAPES)},
     {"name": "c14_o2_q_outgoing_iter_hides_tombstoned_2_runs", "crate": "nervusdb-storage", "run": run_iter("out", 2, QUICK_SHAPES)},
     {"name": "c14_o2_q_incoming_iter_hides_tombstoned_2_runs", "crate": "nervusdb-storage", "run": run_iter("in", 2, QUICK_SHAPES)},
     {"name": "c14_o2_t_outgoing_iter_all_shapes_2_runs", "crate": "nervusdb-storage", "run": run_iter("out", 2, ALL_SHAPES)},
